@@ -342,8 +342,9 @@ void dispatchProgram(GenState &gs, Node *c) {
   gs.emitBackpatched(Instruction::Jmp(after_label));
 
   // generate program code
-  Node *name_node = c->left->left, *args_node = c->left->right->left,
-       *out_node = c->left->right->right, *body_node = c->right;
+  Node *name_node = c->left->left, *ports = c->left->right,
+       *args_node = (ports != NULL) ? ports->left : NULL,
+       *out_node = (ports != NULL) ? ports->right : NULL, *body_node = c->right;
 
   std::string name = std::string(name_node->tok);
   gs.pushSymbols(name);
